@@ -209,6 +209,8 @@ def run(ck, prog, tier, load):
         for bb, t in b.calls(r"io::Write>::write(_all)?$|io::Write::write(_all)?$|io::Write for .*>::write(_all)?$"):
             whole = cname(t).endswith("write_all")
             n_all += whole
+            if not whole and _count_used(b, t):
+                continue  # a partial write whose accepted count is read (a retry loop) is a different, legitimate shape
             if not whole:
                 ck.ob("C13-a.whole-chunk-into-codec", "%s|bb-write" % "::".join(b.npath.split("::")[-2:]), False, b, bb,
                       "a body chunk is handed to the (de)compressor with write(), which may accept only part of it, and the accepted count is not looked at: the rest of the chunk is lost")
@@ -268,3 +270,26 @@ def negotiation_rules(ck, prog):
         why = "search for `identity` completes (None) before `*` is consulted" if ok else "could not establish that the search for `identity` precedes the consultation of `*`"
     ck.ob("C13-e.specific-identity-before-wildcard", "is_identity_acceptable", ok, ia, (any_rets or [None])[0],
           "`identity;q=0` refuses identity even when `*` is listed with a higher quality (RFC 7231 5.3.4: the more specific item wins): %s" % why)
+
+
+def _count_used(b, t):
+    """the Ok payload (number of bytes accepted) of this io::Write::write call is read somewhere in the body"""
+    import json
+    locs = {t["dest"][0]} if t.get("dest") else set()
+    for bb, i, st in b.assigns():
+        rv = st["rv"]
+        if rv["k"] == "use" and isinstance(rv.get("op"), dict) and isinstance(rv["op"].get("p"), list) and rv["op"]["p"] and rv["op"]["p"][0] in locs and len(rv["op"]["p"]) == 1 and len(st["p"]) == 1:
+            locs.add(st["p"][0])
+    hit = []
+
+    def walk_(x):
+        if isinstance(x, list):
+            if x and isinstance(x[0], int) and x[0] in locs and any(isinstance(y, str) and y.endswith("Result::Ok.0") for y in x[1:]):
+                hit.append(x)
+            for y in x:
+                walk_(y)
+        elif isinstance(x, dict):
+            for y in x.values():
+                walk_(y)
+    walk_(b.d.get("blocks") if hasattr(b, "d") else [])
+    return bool(hit)
